@@ -152,6 +152,10 @@ class _View:
     def attr(self):
         return _Attr(self._ref, self._j)
 
+    @property
+    def uri(self):
+        return self._ref.levels[self._j]["uri"]
+
     def __getattr__(self, key):
         ref = self._ref
         if key == "body":
@@ -219,13 +223,13 @@ class Reference:
         e = self._env.get(i)
         if e is None:
             e = dict(self.ctx)
-            e["context"] = self.ctx
             e["self"] = self.views[0]
             e["local"] = self.views[i]
             if i < self.k:
                 e["parent"] = self.views[i + 1]
             if i > 0:
                 e["next"] = self.views[i - 1]
+            e["context"] = dict(e)  # the context of level i holds the render arguments and these names
             self._env[i] = e
         if local_vars:
             e = dict(e)
@@ -323,9 +327,31 @@ class Reference:
         return ("out", "".join(self.out))
 
 
+    def render_def(self, name):
+        """Template.get_def(name).render(): the def of the most-derived template called on that template: self and
+        local are the template itself, parent the adjacent one, no next; no body runs"""
+        nd = self.levels[0]["members"].get(name)
+        if nd is None or nd[0] != "D":
+            raise ValueError("no top-level def %r in %s" % (name, self.levels[0]["uri"]))
+        try:
+            self.member_callable(0, nd)()
+        except RefRecursion:
+            return ("err", "recursion")
+        except RefMissing:
+            return ("err", "missing")
+        except RefDontCare:
+            return ("dontcare", "def-for-block-with-pageargs")
+        return ("out", "".join(self.out))
+
+
 def reference(prog, ctx):
     r = Reference(prog, ctx)
     return r.render(), r
+
+
+def reference_def(prog, ctx, main, name):
+    r = Reference(dict(prog, main=main), ctx)
+    return r.render_def(name), r
 
 
 # --------------------------------------------------------------------------
@@ -387,7 +413,8 @@ def alphabet(seed):
 #   m1, m2 : '-' absent | 'd' def | 'dp' def calling parent.m() | 'dn' def calling next.m()
 #            | 'b' named block | 'bp' named block calling parent.m()
 #   nest   : 1 = m2's block is written inside m1's block (both must be blocks)
-#   attr   : 1 = module attribute present
+#   attr   : 0 absent | 1 = module attribute present, a string naming its level | a literal written out
+#            ("None", "0", "''", "False", "[]": family H)
 #   page   : 1 = <%page args="z=0"/> and the body prints z
 #   anon   : 1 = an anonymous block in the body, and one inside m1 when m1 is present
 #   inh    : 's' static inherit target | 'd' target from ${context['upN']} | 'a<j>' target from
@@ -438,6 +465,14 @@ def build_file(i, L, spec, al, probes, defsig="", extra_attrs=()):
         body.append(member_node(m1, n1, i, fill, inner, defsig))
     if node2 is not None and not nest:
         body.append(node2)
+    if any(what == "card" for _v, what in probes):
+        # a def that reports what the four names are from where it is written
+        card = [("T", "<card@%d local=" % i), ("E", "local.uri"), ("T", " self="), ("E", "self.uri"), ("T", " parent="), ("E", "U(context, 'parent')"), ("T", " next="), ("E", "U(context, 'next')")]
+        card += [("T", " local.%s=" % n1), ("E", "P(local, %r)" % n1), ("T", " self.%s=" % n1), ("E", "P(self, %r)" % n1)]
+        if not acts_as_base:
+            card += [("T", " parent.%s=" % n1), ("E", "P(parent, %r)" % n1)]
+        card += [("T", " self.attr="), ("E", "A(self, %r)" % al["attr"]), ("T", " local.attr="), ("E", "A(local, %r)" % al["attr"]), ("T", ">")]
+        body.append(("D", "card", card, defsig))
     body.append(("T", "|"))
     zval = 10 * i + 1
     if cc != "-":
@@ -449,6 +484,8 @@ def build_file(i, L, spec, al, probes, defsig="", extra_attrs=()):
             continue  # `next` in the most-derived template: not defined by the statement
         if what == "attr":
             body += [("T", " %s.attr="  % view), ("E", "A(%s, %r)" % (view, al["attr"]))]
+        elif what == "card":
+            body += [("T", " %s.card=" % view), ("E", "P(%s, 'card')" % view)]
         elif what == "own":
             # the attribute that level k alone declares, for every level of the chain
             for k in range(L):
@@ -471,8 +508,10 @@ def build_file(i, L, spec, al, probes, defsig="", extra_attrs=()):
         else:
             # 'a<j>': the target is a module attribute declared at level j <= i, read through self.attr
             f["inherit"] = ("d", "context['self'].attr.%s_lay%d" % (al["attr"], i + 1))
-    if attr:
+    if attr == 1:
         f["attrs"].append((al["attr"], repr("%s@%d%s" % (al["attr"], i, fill))))
+    elif attr:
+        f["attrs"].append((al["attr"], attr))  # a literal written out: None, 0, '', False, []
     if any(what == "own" for _v, what in probes):
         f["attrs"].append(("%s_own%d" % (al["attr"], i), repr("own@%d" % i)))
     f["attrs"].extend(extra_attrs)
@@ -564,6 +603,8 @@ def build_program(chain, al, probes, defsig=""):
             ctx["up%d" % (i + 1)] = al["uri"] % (i + 1)
         if i < L - 1 and spec[6] == "N":
             ctx["up%d" % (i + 1)] = None
+    if any(what == "card" for _v, what in probes):
+        ctx["U"] = "@helper:U"
     return {"files": files, "main": al["uri"] % 0, "ctx": ctx}
 
 
@@ -605,7 +646,7 @@ def chain_nontrivial(chain):
     for s in chain:
         names[0] += s[0] != "-"
         names[1] += s[1] != "-"
-        names[2] += s[3]
+        names[2] += s[3] != 0
     return max(names) >= 2
 
 
@@ -714,6 +755,37 @@ def grid_none_target(L, fam="F"):
     return (fam, L, opts, PROBES_M1, "")
 
 
+ATTR_VALUES = (0, 1, "None", "0", "''", "False", "[]")
+PROBES_ATTRVAL = [("self", "attr"), ("local", "attr"), ("parent", "attr"), ("next", "attr")]
+PROBES_ENTRY = [("self", "m1"), ("local", "card"), ("self", "card")]
+
+
+def grid_attr_values(L, fam="H"):
+    """family H: the attribute absent / a string / None / 0 / '' / False / [] at every level (a falsy value of a
+    derived level overrides whatever an ancestor declares), every body chained, read through all four names"""
+    opts = []
+    for i in range(L):
+        pos = _pos(i, L)
+        opts.append([("-", "-", 0, attr, 0, 0, "s", cc) for attr in ATTR_VALUES for cc in _cc(pos, ("n",))])
+    return (fam, L, opts, PROBES_ATTRVAL, "")
+
+
+def grid_entry(L, fam="I"):
+    """family I: every level declares a def card() reporting local / self / parent / next, the member and the
+    attribute; besides the whole page, card() and the member def of every level are rendered on their own through
+    Template.get_def(name).render_unicode() and .render_context()"""
+    opts = []
+    for i in range(L):
+        pos = _pos(i, L)
+        o = []
+        for m1 in _kinds(pos, ("-", "d", "dp")):
+            for attr in (0, 1):
+                for cc in _cc(pos, ("-", "n")):
+                    o.append((m1, "-", 0, attr, 0, 0, "s", cc))
+        opts.append(o)
+    return (fam, L, opts, PROBES_ENTRY, "")
+
+
 def grid_placed(L, full, fam="G"):
     """family G: every level in a directory of depth 0..2 of its own choice, targets spelled absolutely or relatively,
     decoys on/off; member absent/def (all levels def, every body chained, when not `full`)"""
@@ -774,9 +846,15 @@ def grids(tier):
         g.append(grid_attr_target(L))
     for L in (2, 3):
         g.append(grid_none_target(L))
+    for L in (1, 2, 3, 4):
+        g.append(grid_attr_values(L))
+    for L in (1, 2, 3):
+        g.append(grid_entry(L))
     g.append(grid_placed(3, True))
     g.append(grid_placed(4, tier == "thorough"))
     if tier == "thorough":
+        g.append(grid_attr_values(5))
+        g.append(grid_entry(4))
         g.append(grid_attr_target(5))
         g.append(grid_none_target(4))
         for cc in ("-", "n", "s"):
